@@ -309,7 +309,8 @@ P.unit(f"{BASE}.writing", functions=[f"{BASE}.writing", f"{BASE}.flush", f"{BACK
 
 # the session contract relies on: a rejected buffered write does not poison the queue, and the key listing is refreshed from the file
 from contracts import C02_ukv_map as C02
-P.include(C02.P, ["backend.flush/get with a doomed queued write", "backend.update_keys", "backend.get[every-listed-key-is-readable]"],
+P.include(C02.P, ["backend.flush/get with a doomed queued write", "backend.update_keys", "backend.get[every-listed-key-is-readable]",
+                  "molli.storage.ukvfile:UKVFile.map_blocks", "reopen of a clean file"],
           why="a failed session leaves nothing behind for the next one; the index is refreshed at session begin")
 
 
